@@ -161,6 +161,9 @@ theorem c07_agrees_self_f (S : StrFns) :
   | .scalar n o, p, x, L, hx, h => by
     simp only [AgreesF] at h ⊢
     rw [c07_keyOf_append, c07_stepKey_self S p x hx n _ h]; exact h
+  | .mapped n o ci fs, p, x, L, hx, h => by
+    simp only [AgreesF] at h ⊢
+    rw [c07_keyOf_append, c07_stepKey_self S p x hx n _ h]; exact h
   | .nested n o sh own fs, p, x, L, hx, h => by
     simp only [AgreesF] at h ⊢
     obtain ⟨h1, q, hq, hrec⟩ := h
@@ -187,6 +190,9 @@ theorem c07_agrees_step_f (S : StrFns) :
     ∀ (f : Fld) (m : Mapper) (d : MDict) (L : List Mapper),
       AgreesF S d L f → AgreesF S (norm (add S true m d)) (L ++ [m]) f
   | .scalar n o, m, d, L, h => by
+    simp only [AgreesF] at h ⊢
+    rw [lookupR_norm, lookupR_add_fld, h, c07_keyOf_append]; rfl
+  | .mapped n o ci fs, m, d, L, h => by
     simp only [AgreesF] at h ⊢
     rw [lookupR_norm, lookupR_add_fld, h, c07_keyOf_append]; rfl
   | .nested n o sh own fs, m, d, L, h => by
@@ -227,6 +233,7 @@ theorem c07_lookupR_nest_baseFld_ne (S : StrFns) (b : Bool) (n : String) (fl : F
     lookupR (.nest n) (baseFld S b fl) = none := by
   cases fl with
   | scalar m o => simp [baseFld, lookupR]
+  | mapped m o ci fs => simp [baseFld, lookupR]
   | nested m o sh own fs =>
     simp only [Fld.name] at h
     simp [baseFld, lookupR, h]
@@ -270,6 +277,11 @@ theorem c07_base_agrees_f (S : StrFns) :
     ∀ (f : Fld) (full : List Fld), f ∈ full → nodupB (full.map Fld.name) = true →
       subOK f = true → AgreesF S (baseFields S true full) [] f
   | .scalar n o, full, hm, _, _ => by
+    simp only [AgreesF, lookupR_baseFields, keyOf, List.foldl_nil]
+    have : full.any (fun fl => fl.name == n) = true :=
+      List.any_eq_true.mpr ⟨_, hm, by simp [Fld.name]⟩
+    simp [this]
+  | .mapped n o ci fs, full, hm, _, _ => by
     simp only [AgreesF, lookupR_baseFields, keyOf, List.foldl_nil]
     have : full.any (fun fl => fl.name == n) = true :=
       List.any_eq_true.mpr ⟨_, hm, by simp [Fld.name]⟩
@@ -340,6 +352,7 @@ theorem c07_serFields_eq_spec (S : StrFns) (camel : Bool) :
         have hag := c07_agreesF_of_mem S ms L fs ha fl hmem
         rw [hf] at h
         cases fl with
+        | mapped n o ci fs' => simp at h
         | scalar n o =>
           simp only [Fld.name] at hname; subst hname
           simp only [AgreesF] at hag
@@ -371,6 +384,54 @@ theorem c07_serList_eq_spec (S : StrFns) (camel : Bool) :
     simp only [confList, and_true_iff'] at h
     simp only [serList, specList]
     rw [c07_ser_eq_spec S camel x ms L fs ha h.1, c07_serList_eq_spec S camel xs ms L fs ha h.2]
+end
+
+/-! ### the class-directed serializer is `ser` wherever there is no Map-valued field -/
+
+mutual
+theorem c07_serC_eq_ser (S : StrFns) (camel : Bool) :
+    ∀ (x : J) (m : MDict) (fs : List Fld), conf fs x = true → serC S camel m fs x = ser S camel m x
+  | .null, _, _, h => by simp [conf] at h
+  | .int _, _, _, h => by simp [conf] at h
+  | .str _, _, _, h => by simp [conf] at h
+  | .arr xs, m, fs, h => by
+    simp only [conf] at h
+    simp only [serC, ser, c07_serCList_eq S camel xs m fs h]
+  | .obj kvs, m, fs, h => by
+    simp only [conf] at h
+    simp only [serC, ser, c07_serCFields_eq S camel kvs m fs h]
+theorem c07_serCFields_eq (S : StrFns) (camel : Bool) :
+    ∀ (kvs : List (String × J)) (m : MDict) (fs : List Fld), confKvs fs kvs = true →
+      serCFields S camel m fs kvs = serFields S camel m kvs
+  | [], _, _, _ => by simp [serCFields, serFields]
+  | (f, v) :: rest, m, fs, h => by
+    simp only [confKvs, and_true_iff'] at h
+    have ih := c07_serCFields_eq S camel rest m fs h.2
+    by_cases hv : v.isNull = true
+    · simp only [serCFields, serFields, hv, if_true]; exact ih
+    · have hv' : v.isNull = false := by simpa using hv
+      simp only [serCFields, serFields, hv', Bool.false_eq_true, if_false]
+      cases hk : serKey S camel m f with
+      | none => simpa using ih
+      | some k =>
+        cases hf : findFld fs f with
+        | none => rw [hf] at h; simp at h
+        | some fl =>
+          rw [hf] at h
+          cases fl with
+          | mapped n o ci fs' => simp at h
+          | scalar n o => simp [ih, c07_ser_scalar S camel _ v h.1]
+          | nested n o sh ci fs' =>
+            have hc : conf fs' v = true := by
+              have := h.1; simp only [hv', Bool.false_or] at this; exact this
+            simp [ih, c07_serC_eq_ser S camel v _ fs' hc]
+theorem c07_serCList_eq (S : StrFns) (camel : Bool) :
+    ∀ (xs : List J) (m : MDict) (fs : List Fld), confList fs xs = true →
+      serCList S camel m fs xs = serList S camel m xs
+  | [], _, _, _ => by simp [serCList, serList]
+  | x :: xs, m, fs, h => by
+    simp only [confList, and_true_iff'] at h
+    simp only [serCList, serList, c07_serC_eq_ser S camel x m fs h.1, c07_serCList_eq S camel xs m fs h.2]
 end
 
 end Typedpy.Mappers
